@@ -258,6 +258,7 @@ class MailboxWorld:
         self.on_server_msg = None   # callable(client, msg dict) at delivery
         self.on_op = None           # callable(client, op, ok) after an op ran
         self.before_op = None       # callable(client, op) just before
+        self.extra_ops = None       # {kind: callable(client)}
         self.fault_budget = 0
         self.faults_fired = []
         self.fault_kinds = ()
@@ -452,6 +453,8 @@ class MailboxWorld:
             self._extra_get(c, op[1])
         elif kind.startswith("wait"):
             pass
+        elif self.extra_ops and kind in self.extra_ops:
+            self.extra_ops[kind](c)
         else:
             raise HarnessError("unknown op %r" % (op,))
 
